@@ -46,35 +46,19 @@ def resolves(column, targets, index):
 
 
 @spec
-def resolvable(column, targets):
-    return (1 <= column <= nselected(targets)) if isinstance(column, int) else any(targets[j].name == column.name for j in range(len(targets)))
-
-
-@spec
-def denotes(column, targets, i):
-    """a name denotes the last target carrying it"""
-    return (i == column - 1) if isinstance(column, int) else (
-        targets[i].name == column.name and all(targets[j].name != column.name for j in range(i + 1, len(targets))))
+def resolved(column, targets):
+    """what a reference denotes: position - 1, or the index of the (last) target carrying the name; None if there is none"""
+    if isinstance(column, int):
+        return column - 1 if 1 <= column <= nselected(targets) else None
+    return {target.name: index for index, target in enumerate(targets)}.get(column.name)
 
 
 @spec
 def pivot_rejected(pivot_by, targets, group_indexes):
-    """the statement's rule: reference unknown / out of range, both coincide, or the second is not grouped (or the query does not aggregate)"""
-    c0 = pivot_by.columns[0]
-    c1 = pivot_by.columns[1]
-    n = len(targets)
-    return (group_indexes is None or not resolvable(c0, targets) or not resolvable(c1, targets)
-            or any(any(denotes(c0, targets, i0) and denotes(c1, targets, i1) and (i0 == i1 or i1 not in group_indexes) for i1 in range(n)) for i0 in range(n)))
-
-
-@spec
-def pivot_rejected_u(pivot_by, targets, group_indexes):
-    """the same rule with the (unique) denoted indexes quantified universally: equivalent for resolvable references, easier for the solver on the raising paths"""
-    c0 = pivot_by.columns[0]
-    c1 = pivot_by.columns[1]
-    n = len(targets)
-    return (group_indexes is None or not resolvable(c0, targets) or not resolvable(c1, targets)
-            or all(all(implies(denotes(c0, targets, i0) and denotes(c1, targets, i1), i0 == i1 or i1 not in group_indexes) for i1 in range(n)) for i0 in range(n)))
+    """the statement's rule: the query does not aggregate, a reference is unknown / out of range, both coincide, or the second is not grouped"""
+    r0 = resolved(pivot_by.columns[0], targets)
+    r1 = resolved(pivot_by.columns[1], targets)
+    return group_indexes is None or r0 is None or r1 is None or r0 == r1 or r1 not in group_indexes
 
 
 @contract(f'{CP}:Compiler._compile_pivot_by')
@@ -83,7 +67,7 @@ class compile_pivot_by:
     params = {'self': COMPILER, 'pivot_by': PIVOT, 'targets': ListOf(TARGET, maxlen=3), 'group_indexes': Opt(ListOf(Int(0, 3), maxlen=3))}
     modifies = []
     assumes = ['ATTRS_PRESENT']
-    raises = {'CompilationError': lambda old: pivot_rejected_u(old.pivot_by, old.targets, old.group_indexes)}
+    raises = {'CompilationError': lambda old: pivot_rejected(old.pivot_by, old.targets, old.group_indexes)}
     ensures = [
         ('both-references-resolve-to-selected-targets', lambda pivot_by, targets, result:
             len(result) == 2 and resolves(pivot_by.columns[0], targets, result[0]) and resolves(pivot_by.columns[1], targets, result[1])),
